@@ -1,7 +1,7 @@
 SPECIFICATION GenSpec
 CONSTANTS
   Hub = "tell"
-  D = {d1, d2}
+  D = {d1, d2, d3, d4, d5, d6}
   R = {r1, r2, r3, r4, r5, r6}
   C = {c1, c2}
   P = {}
@@ -13,5 +13,6 @@ CONSTANTS
   CFirst = c1
   CSecond = c2
   RLate = r6
-  DLate = d2
+  DLate = d6
+  W = 2
 CHECK_DEADLOCK FALSE
